@@ -25,6 +25,10 @@ type Op struct {
 	Seq    bool   `json:"seq,omitempty"`
 	Filter string `json:"filter,omitempty"` // "", all, none, even, odd
 	ID     int    `json:"id,omitempty"`     // event id of a publish (unique per case)
+	// Any (pub/pubctx): the event is published through the static type any
+	// (Publish[any](bus, ev)) - an application helper taking an event
+	// interface.  Routing, filters and delivery follow the dynamic type.
+	Any bool `json:"any,omitempty"`
 }
 
 // Script is a list of operations a synchronous handler executes on its first
@@ -388,13 +392,21 @@ func (e *env) exec(o Op, path string) {
 		if len(e.stack) > 0 && seqGuard(e.seqKeys, e.stack, ti) {
 			return
 		}
-		t.Pub(e.bus, nil, o.ID)
+		if o.Any {
+			t.PubAny(e.bus, nil, o.ID)
+		} else {
+			t.Pub(e.bus, nil, o.ID)
+		}
 	case "pubctx":
 		if len(e.stack) > 0 && seqGuard(e.seqKeys, e.stack, ti) {
 			return
 		}
 		ctx := context.WithValue(context.Background(), ctxKey{}, fmt.Sprintf("v%d", o.ID))
-		t.Pub(e.bus, ctx, o.ID)
+		if o.Any {
+			t.PubAny(e.bus, ctx, o.ID)
+		} else {
+			t.Pub(e.bus, ctx, o.ID)
+		}
 	}
 }
 
